@@ -195,6 +195,24 @@ def _touch(obj):
         pass
 
 
+def _assign_meta(comp, m, v):
+    """A compound made by an operator / method that gets its own meta and
+    visual afterwards, by ASSIGNMENT of new objects (after a first use)."""
+    if m is None and v is None:
+        return comp
+    repr(comp)
+    comp == comp
+    try:
+        comp.bounding_box
+    except Exception:   # noqa: BLE001 - sky compounds have none
+        pass
+    if m is not None:
+        comp.meta = m
+    if v is not None:
+        comp.visual = v
+    return comp
+
+
 def build(spec):
     """Spec -> region object (pixel or sky).  With spec['build'] == 'assign'
     the object is first constructed from a DIFFERENT valid spec of the same
@@ -246,11 +264,11 @@ def build(spec):
         r1, r2 = build(spec['r1']), build(spec['r2'])
         via = spec.get('via', 'operator')
         op = OPS[spec['op']]
-        if via == 'ctor' or m is not None or v is not None:
+        if via == 'ctor':
             return R(r1, r2, op, **kw)
-        if via == 'method':
-            return getattr(r1, OP_METHODS[spec['op']])(r2)
-        return op(r1, r2)
+        comp = (getattr(r1, OP_METHODS[spec['op']])(r2) if via == 'method'
+                else op(r1, r2))
+        return _assign_meta(comp, m, v)
     if cls == 'CirclePixelRegion':
         return R(pixcoord(spec['center'], k), num(spec['radius'], k), **kw)
     if cls in ('EllipsePixelRegion', 'RectanglePixelRegion'):
@@ -335,11 +353,11 @@ def build_sky(spec):
         r1, r2 = build(spec['r1']), build(spec['r2'])
         via = spec.get('via', 'operator')
         op = OPS[spec['op']]
-        if via == 'ctor' or m is not None or v is not None:
+        if via == 'ctor':
             return R(r1, r2, op, **kw)
-        if via == 'method':
-            return getattr(r1, OP_METHODS[spec['op']])(r2)
-        return op(r1, r2)
+        comp = (getattr(r1, OP_METHODS[spec['op']])(r2) if via == 'method'
+                else op(r1, r2))
+        return _assign_meta(comp, m, v)
     if cls == 'CircleSkyRegion':
         return R(skycoord(spec['center']), qty(spec['radius']), **kw)
     if cls in ('EllipseSkyRegion', 'RectangleSkyRegion'):
@@ -367,9 +385,61 @@ def build_sky(spec):
 
 # ---------------------------------------------------------------- WCS ------
 
-def build_wcs(w):
+def build_wcs(w, warm=None):
     """{"proj": "TAN", "frame": "icrs", "crval": [lon, lat], "crpix": [x, y],
-        "scale": deg/pix, "rot": deg, "parity": -1|+1}"""
+        "scale": deg/pix, "rot": deg, "parity": -1|+1}
+
+    With w["past"] = {"drot", "fscale", "dcrval", "dcrpix"} the WCS OBJECT has
+    a history: it is built in another state (rotated, rescaled, reference
+    point moved), used - generically and by ``warm(wcs)`` if given - and then
+    edited in place (cd, crval, crpix) into the state described by ``w``: the
+    library must treat it like a freshly built WCS of that state."""
+    past = w.get('past')
+    if not past or w.get('example'):
+        return _build_wcs(w)
+    w1 = {k: v for k, v in w.items() if k != 'past'}
+    w0 = dict(w1, rot=w['rot'] + past['drot'],
+              scale=w['scale'] * 10.0 ** past['fscale'],
+              crval=[(w['crval'][0] + past['dcrval'][0] * w['scale']) % 360.0,
+                     max(-85.0, min(85.0, w['crval'][1]
+                                    + past['dcrval'][1] * w['scale']))])
+    if not w.get('sip'):
+        w0['crpix'] = [w['crpix'][0] + past['dcrpix'][0],
+                       w['crpix'][1] + past['dcrpix'][1]]
+    wcs = _build_wcs(w0)
+    target = _build_wcs(w1)
+    try:
+        _use_wcs(wcs, w0)
+        if warm is not None:
+            warm(wcs)
+    except Exception:   # noqa: BLE001 - the earlier state is not judged
+        pass
+    wcs.wcs.cd = target.wcs.cd
+    wcs.wcs.crval = target.wcs.crval
+    wcs.wcs.crpix = target.wcs.crpix
+    # wcslib writes the native-pole defaults it derived from the OLD crval
+    # back into the struct: they belong to the state and are edited with it
+    wcs.wcs.lonpole = target.wcs.lonpole
+    wcs.wcs.latpole = target.wcs.latpole
+    return wcs
+
+
+def _use_wcs(wcs, w):
+    """Generic traffic through a WCS object (conversions in both directions
+    near its reference pixel)."""
+    import astropy.units as u
+    import regions as R
+    x, y = w['crpix'][0] - 1 + 3.0, w['crpix'][1] - 1 - 2.0
+    pc = R.PixCoord(x, y)
+    sc = pc.to_sky(wcs)
+    R.PixCoord.from_sky(sc, wcs)
+    sky = R.EllipsePixelRegion(pc, 6.0, 3.0, 20 * u.deg).to_sky(wcs)
+    sky.to_pixel(wcs)
+    sky.contains(sc, wcs)
+    R.CirclePixelRegion(pc, 2.0).to_sky(wcs).to_pixel(wcs)
+
+
+def _build_wcs(w):
     import math
 
     from astropy.wcs import WCS
